@@ -54,6 +54,8 @@ func runC14(c *Ctx) {
 	ruleExitGuards(c, p, "C14.guard")
 	ruleNoCapInEncoders(c, p, "C14.lenonly")
 	ruleChainScratch(c, p, "C14.chain-scratch")
+	ruleAllColumns(c, p, "C14.all-columns")
+	ruleAssertSiblings(c, p, "C14.assert-siblings")
 	for _, cfg := range c.Configs() {
 		if pc := c.Prog(cfg); pc != nil {
 			ruleBufGrowByAppend(c, pc, "C14.grow")
@@ -790,4 +792,110 @@ func ruleChainScratch(c *Ctx, p *core.Program, rule string) {
 		}
 	}
 	c.R.Count("ChainWrite calls on locally allocated buffers["+cfg+"]", n)
+}
+
+// ---- all-columns (C09 / C14 / C01): a block encoder visits every input column before it succeeds
+func ruleAllColumns(c *Ctx, p *core.Program, rule string) {
+	c.R.Rule(rule, "a block encoder (a proto function that ranges over its []InputColumn parameter and writes) succeeds only after the loop over the columns has run to its end: every success exit is reached through the exit edge of that loop - an early `rows == 0 -> return nil` after the counters drops the name/type header of every column of a block with columns but no rows (an idle round of a streamed INSERT), and the server parses the next packet as a column name. The language comparison of the two encoders cannot see this: with no columns the short form is legal")
+	cfg := p.Cfg.Name
+	n := 0
+	for _, fn := range p.Funcs() {
+		if pkgOf(fn) == nil || pkgOf(fn).Path() != core.PkgProto || fn.Blocks == nil {
+			continue
+		}
+		var in *ssa.Parameter
+		for _, pr := range fn.Params {
+			if sl, ok := pr.Type().Underlying().(*types.Slice); ok && core.IsNamed(sl.Elem(), core.PkgProto, "InputColumn") {
+				in = pr
+			}
+		}
+		if in == nil {
+			continue
+		}
+		// the loop test `i < len(input)`
+		var exits []core.Edge
+		for _, b := range fn.Blocks {
+			ifi, ok := b.Instrs[len(b.Instrs)-1].(*ssa.If)
+			if !ok {
+				continue
+			}
+			bo, ok := ifi.Cond.(*ssa.BinOp)
+			if !ok || bo.Op != token.LSS {
+				continue
+			}
+			cl, ok := stripConv(bo.Y).(*ssa.Call)
+			if !ok {
+				continue
+			}
+			if bi, okb := cl.Call.Value.(*ssa.Builtin); okb && bi.Name() == "len" && cl.Call.Args[0] == ssa.Value(in) {
+				exits = append(exits, core.Edge{B: b, Succ: 1})
+			}
+		}
+		if len(exits) == 0 {
+			continue
+		}
+		n++
+		key := core.FuncName(fn)
+		bad := false
+		for _, b := range fn.Blocks {
+			ret, ok := b.Instrs[len(b.Instrs)-1].(*ssa.Return)
+			if !ok || !defaultSuccess(fn, ret) {
+				continue
+			}
+			if !core.OnlyViaEdges(fn, ret, exits) {
+				bad = true
+				c.R.Bad(rule, key, cfg, p.Pos(ret.Pos()), "the block encoder can succeed without having visited the input columns: a block with columns but no rows is written without its column headers")
+			}
+		}
+		if !bad {
+			c.R.Ok(rule, key, cfg, p.Pos(fn.Pos()), "every success exit follows the end of the loop over the input columns")
+		}
+	}
+	c.R.Count("block encoders["+cfg+"]", n)
+	c.R.Floor(rule, cfg, n, 2)
+}
+
+// ---- assert-siblings (C14): the two block encoders ask their columns for the same optional interfaces
+func ruleAssertSiblings(c *Ctx, p *core.Program, rule string) {
+	c.R.Rule(rule, "sibling agreement of the block encoders: Block.EncodeRawBlock (buffered, compressed path) and Block.WriteBlock (vectored path) discover the optional behaviour of an input column through type assertions; the sets of interfaces they assert to are equal - asserting to the wider Stateful (encoder + decoder) in one of them silently skips the state prefix of columns passed by value (DecodeState has a pointer receiver), and only on that path")
+	cfg := p.Cfg.Name
+	eb := p.Method(core.PkgProto, "Block", "EncodeRawBlock")
+	wb := p.Method(core.PkgProto, "Block", "WriteBlock")
+	if !c.must(p, "Block.EncodeRawBlock / WriteBlock", eb != nil && wb != nil) {
+		return
+	}
+	collect := func(root *ssa.Function) []string {
+		set := map[string]bool{}
+		for fn := range core.StaticReach(root, 1) {
+			if pkgOf(fn) == nil || pkgOf(fn).Path() != core.PkgProto {
+				continue
+			}
+			if fn != root && fn.Parent() != root {
+				continue
+			}
+			for _, b := range fn.Blocks {
+				for _, in := range b.Instrs {
+					if ta, ok := in.(*ssa.TypeAssert); ok {
+						if nm := core.NamedOf(ta.AssertedType); nm != nil {
+							set[nm.Obj().Name()] = true
+						} else {
+							set[ta.AssertedType.String()] = true
+						}
+					}
+				}
+			}
+		}
+		var out []string
+		for k := range set {
+			out = append(out, k)
+		}
+		sort.Strings(out)
+		return out
+	}
+	a, b := collect(eb), collect(wb)
+	if strings.Join(a, ",") == strings.Join(b, ",") && len(a) > 0 {
+		c.R.Ok(rule, "Block.EncodeRawBlock=WriteBlock", cfg, p.Pos(wb.Pos()), "both assert to {"+strings.Join(a, ", ")+"}")
+	} else {
+		c.R.Bad(rule, "Block.EncodeRawBlock=WriteBlock", cfg, p.Pos(wb.Pos()), "the buffered encoder asserts its columns to {"+strings.Join(a, ", ")+"}, the vectored one to {"+strings.Join(b, ", ")+"}: a column that satisfies one set but not the other is encoded differently on the two paths")
+	}
 }
